@@ -38,14 +38,14 @@ class RunContext(TaskContext):
             # FIXME: use exception instead of last implicit stacktrace
             self.session.log_error("Caught unexpected exception while running test: " + traceback.format_exc())
 
-    def run_setup_funcs(self, funcs, location):
+    def run_setup_funcs(self, funcs, location, suite=None):
         teardown_funcs = []
         for setup_func, teardown_func in funcs:
             if setup_func:
                 try:
                     setup_func()
                 except Exception as e:
-                    self.handle_exception(e)
+                    self.handle_exception(e, suite)
                     break
                 else:
                     if not self.session.is_successful(location):
@@ -56,13 +56,13 @@ class RunContext(TaskContext):
                 teardown_funcs.append(teardown_func)
         return teardown_funcs
 
-    def run_teardown_funcs(self, teardown_funcs):
+    def run_teardown_funcs(self, teardown_funcs, suite=None):
         for teardown_func in reversed(teardown_funcs):
             if teardown_func:
                 try:
                     teardown_func()
                 except Exception as e:
-                    self.handle_exception(e)
+                    self.handle_exception(e, suite)
 
     def enable_task_abort(self):
         super().enable_task_abort()
@@ -171,7 +171,9 @@ class TestTask(BaseTask):
         context.session.set_step("Setup test")
 
         if any(setup for setup, _ in setup_teardown_funcs):
-            teardown_funcs = context.run_setup_funcs(setup_teardown_funcs, ReportLocation.in_test(self.test))
+            teardown_funcs = context.run_setup_funcs(
+                setup_teardown_funcs, ReportLocation.in_test(self.test), suite
+            )
         else:
             teardown_funcs = [teardown for _, teardown in setup_teardown_funcs if teardown]
 
@@ -191,7 +193,7 @@ class TestTask(BaseTask):
         ###
         if any(teardown_funcs):
             context.session.set_step("Teardown test")
-            context.run_teardown_funcs(teardown_funcs)
+            context.run_teardown_funcs(teardown_funcs, suite)
 
         context.session.end_test(self.test)
 
